@@ -24,11 +24,15 @@ var c05c struct {
 	headByteTLS, headByteX bool
 	headByteCalls          int
 	dials                  int
+	tlsBuildFails          bool // the certificate / CA files cannot be read
 }
 
 func c05cStubNewClientTLSConfig(certPath, keyPath, caPath, serverName string) (*tls.Config, error) {
 	c05c.tlsCalls++
 	c05c.cert, c05c.key, c05c.ca, c05c.sn = certPath, keyPath, caPath, serverName
+	if c05c.tlsBuildFails {
+		return nil, errors.New("open ca.crt: no such file or directory")
+	}
 	c05c.made = &tls.Config{ServerName: serverName}
 	return c05c.made, nil
 }
@@ -93,12 +97,21 @@ func VerifC05ClientDial() {
 		zzverif.Reach("C05.client.completed")
 	}
 	c05c.tlsCalls, c05c.made, c05c.dialTLS, c05c.dialTLSSet, c05c.headByteCalls, c05c.dials = 0, nil, nil, false, 0, 0
+	c05c.tlsBuildFails = zzverif.Bool("tlsFilesUnreadable")
 	c := NewConnector(context.Background(), cfg).(*defaultConnectorImpl)
 	isQuic := proto == "quic" || proto == "QUIC"
+	var derr error
+	var dconn net.Conn
 	if isQuic {
-		_ = c.Open()
+		derr = c.Open()
 	} else {
-		_, _ = c.realConnect()
+		dconn, derr = c.realConnect()
+	}
+	if c05c.tlsBuildFails && (enable || proto == "wss" || isQuic) {
+		// TLS was asked for and cannot be set up: the client does not fall back to a clear-text connection
+		zzverif.Assert(derr != nil && dconn == nil && c05c.dials == 0, "C05.client.no-connection-without-the-tls-configuration-that-was-asked-for")
+		zzverif.Reach("C05.client.tls-setup-failed")
+		return
 	}
 	zzverif.Assert(c05c.dials == 1 && c05c.dialTLSSet, "C05.client.dialled-once")
 	tlsApplies := enable || proto == "wss"
